@@ -560,7 +560,16 @@ pub fn video_frame(cfg: &CfgGene, g: &VGene, idx: usize, first: bool, fc: &mut F
             };
             let with_cfg = first || (g.key && sh & 8 != 0);
             // one configuration in 8 carries a box type's bytes in one of its parameter sets
-            let dict = |slot: u16, fill: u8| if g.size % 8 == 5 && (g.size / 8) % 3 == slot { 192 + ((g.size / 24) % 48) as u8 } else { fill };
+            // ... and one in 8 opens its H.264 SPS like a real one (profile / chroma format / bit depth codes, see gen::nal_bytes)
+            let dict = |slot: u16, fill: u8| {
+                if g.size % 8 == 5 && (g.size / 8) % 3 == slot {
+                    192 + ((g.size / 24) % 48) as u8
+                } else if g.size % 8 == 3 && slot == 0 {
+                    160 + ((g.size / 8) % 32) as u8
+                } else {
+                    fill
+                }
+            };
             if sh & 2 != 0 {
                 push(if hevc { h265t::AUD } else { h264t::AUD }, 1, 0, 0);
             }
